@@ -209,7 +209,7 @@ def make_v3(path, rng, T=8, F=6, n_ants=2, shuffle_bls=True, dup_final_dump=Fals
             with_flags=True, with_weights=True, activity=None, targets=None, labels=None, extra_sensors=None,
             int_time=2.0, t0=1500000000.0, open_kwargs=None, bandwidth=None, cbid='1500000000',
             obs_params=None, scale_factor_timestamp=2.0 ** 30, sync_offset=1000.0, centroid=True,
-            version='3.9', pols='hv', seed=None, open=True, cbf_int_time=None):
+            version='3.9', pols='hv', seed=None, open=True, cbf_int_time=None, with_weights_channel=None):
     """Write a v3 file and open it.  `t0` is the MID time of the first dump.
 
     extra_sensors : {'<component>/<sensor>': events} below TelescopeModel (component group is created with the
@@ -251,8 +251,11 @@ def make_v3(path, rng, T=8, F=6, n_ants=2, shuffle_bls=True, dup_final_dump=Fals
     stored = {'vis_pairs': pairs, 'timestamps_raw': ts_raw}
     if with_flags:
         stored['flags'] = flags
+    if with_weights_channel is None:
+        with_weights_channel = with_weights
     if with_weights:
         stored['weights'] = weights
+    if with_weights_channel:
         stored['weights_channel'] = weights_channel
     activity = activity or [(-1.0, 'slew'), (1.5, 'track')]
     targets = targets or [(-1.0, TARGETS[0])]
@@ -274,6 +277,7 @@ def make_v3(path, rng, T=8, F=6, n_ants=2, shuffle_bls=True, dup_final_dump=Fals
             data.create_dataset('flags', data=flags)
         if with_weights:
             data.create_dataset('weights', data=weights)
+        if with_weights_channel:
             data.create_dataset('weights_channel', data=weights_channel)
         tm = f.create_group('TelescopeModel')
         cbf = tm.create_group('cbf')
@@ -334,8 +338,8 @@ def make_v3(path, rng, T=8, F=6, n_ants=2, shuffle_bls=True, dup_final_dump=Fals
     syn.timestamps = mid.copy()
     syn.freqs = centre + rd_sideband * float(bandwidth) * (np.arange(F) - F // 2) / F
     syn.flags_raw = flags[:T].copy() if with_flags else np.zeros((T, F, B), np.uint8)
-    syn.weights = (weights[:T] * weights_channel[:T, :, np.newaxis]).astype(np.float32) if with_weights \
-        else np.ones((T, F, B), np.float32)
+    syn.weights = ((weights[:T] if with_weights else np.ones((T, F, B), np.float32)) *
+                   (weights_channel[:T, :, np.newaxis] if with_weights_channel else np.float32(1.0))).astype(np.float32)
     syn.obs_params, syn.cbid = (op if cbid is not None else {}), cbid
     return _finish(syn, open_kwargs, open)
 
